@@ -70,6 +70,7 @@ package iobroker
 //@   on enter Mutex.Unlock(m): if phase == 1 && nNewConn == 1 { assert(iff(nConn == 1, *cancelUs != nil && *cancelOther != nil), "connected_event_iff_fully_attached") }
 //@   on go f(): nPeerCancel++
 //@   on enter WaitGroup.Add(wg, n): assert(held("Broker.mu") && !b.noMore, "add_only_under_lock_before_shutdown"); nAdd++
+//@   on enter WaitGroup.Done(wg): assert(imp(nProxy == 1, nDiscRec == 1 && phase == 2), "the_broker_is_released_only_after_the_disconnect_record_and_the_teardown")
 //@   on call WaitGroup.Done(wg): nDone++
 //@   exit {C01,C04}: assert(imp(nProxy == 1, b.key == "" && *cancelUs == nil), "released"); assert(imp(nProxy == 1, iff(nDisc == 1, *cancelOther == nil)) && imp(nProxy == 0, nDisc == 0) && nDisc <= 1, "gone_event_iff_both_ended"); assert(imp(nProxy == 1 && otherAtRelock, nPeerCancel == 1), "peer_cancelled")
 //@   ensures proxy_once: nProxy <= 1
